@@ -143,6 +143,12 @@ pub fn check(c: &mut Case, files: &Files, nvariants: usize) {
 pub fn gen_files(rng: &mut Rng, max_files: usize, max_body: usize) -> Files {
     let n = rng.skewed(max_files);
     let mut files: Files = Vec::new();
+    if n >= 2 && rng.chance(1, 30) {
+        // two distinct names that collide under a common hash function
+        let (a, b) = *rng.pick(&crate::refs::strings::COLLIDING_PAIRS);
+        files.push((a.to_string(), rng.bytes(3)));
+        files.push((b.to_string(), rng.bytes(5)));
+    }
     while files.len() < n {
         let name = match rng.below(8) {
             0 => String::new(),
